@@ -627,7 +627,10 @@ def stepU (s : St) (k : Nat) (v : Variant) : Option St :=
   | .sdWake w, .ok => some (set (.sdRel2 w) { s with wakeup := s.wakeup + 1 })
   | .sdRel2 w, .ok =>
       let s := { s with shut := s.shut + 1, oShut := none }
-      some (if s.mpc ≠ .none ∧ w then set .sdAcqG s else uRelease { s with attrsDropped := true } k)
+      -- `if wait or executor_manager_thread is None:` the attributes are dropped; a `shutdown(wait=False)` on a
+      -- running executor keeps them, so that a later `shutdown(wait=True)` can still wake and join the manager
+      some (if s.mpc ≠ .none ∧ w then set .sdAcqG s
+            else uRelease { s with attrsDropped := s.attrsDropped || decide (s.mpc = .none) } k)
   | .sdAcqG, .ok => (acq s.gshut).map fun x => set .sdJoin { s with gshut := x, oGshut := some (.U k) }
   | .sdJoin, .ok => if mEnded s then some (set .sdRelG s) else none
   | .sdRelG, .ok => some (uRelease { s with gshut := s.gshut + 1, oGshut := none, attrsDropped := true, threadReg := false } k)
